@@ -82,7 +82,7 @@ def cases(ctx):
                              "rom": mapping, "mapping": mapping, "format": fmt, "copier": copier, "defines": dict(defines),
                              "src": program(rng, mapping, defines), "api": True, "symfile": True,
                              "spec": {"t": "c12"}}
-                        if n % cli_every == 0:
+                        if n % cli_every == 0 or (rep == 0 and not copier and not defines):      # every format x mapping point once
                             c["cli"] = True
                             c["cli_defines"] = {k: (hex(v) if v > 9 else str(v)) for k, v in defines.items()}
                             if mapping is None:
@@ -122,6 +122,15 @@ def cases(ctx):
             for fmt in ("ips", "sfc"):
                 out.append({"kind": f"verbatim-text:{name}:{fmt}", "rom": mapping, "mapping": mapping, "format": fmt, "copier": False,
                             "defines": {}, "src": src, "api": True, "cli": fmt == "ips", "symfile": True, "spec": {"t": "c12"}})
+    # programs that write no byte at all: the output is still a complete file of its format (PATCH + EOF / an empty image)
+    for mapping in (None, "low", "high"):
+        for name, src in (("empty", ""), ("symbols-only", "zz_a := 1\nzz_b = zz_a + 1\n"), ("labels-only", "*=0x408000\nzz_l:\nzz_m:\n"),
+                          ("compiled-out", "*=0x408000\n.if 0 {\nnop\n}\n.for zz_i := 0, 0 {\nnop\n}\n"), ("comment-only", "; nothing\n/* at all */\n")):
+            for fmt in ("ips", "sfc"):
+                for copier in ((False, True) if fmt == "ips" else (False,)):
+                    out.append({"kind": f"no-output:{name}:{fmt}", "rom": mapping, "mapping": mapping, "format": fmt, "copier": copier,
+                                "defines": {}, "src": src, "api": True, "cli": mapping is not None and name != "empty", "symfile": True,
+                                "count_empty": True, "spec": {"t": "c12"}})
     # one contiguous block longer than an IPS record can hold (split into records), with and without the copier header
     blob = [(i * 7 + 3) & 0xFF for i in range(0x10005)]     # two records; stays below the size limit for shipped files
     for copier in (False, True):
